@@ -251,6 +251,36 @@ Definition cviews_cols (cvs : list cview) : Z := fold_right (fun cv acc => ccols
 Definition shards_cols (ss : shards) : Z :=
   match ss with [] => 0 | (_, cvs) :: _ => cviews_cols cvs end.
 
+(* ---- the well-formedness invariant of a rectangular composite canvas (not in the Python:
+   it is what every CompositeCanvas built by the operations below satisfies; checked at run
+   time on every observed canvas and assumed by the theorems) ----
+   every cview has positive size and lies inside its leaf canvas; every shard has a positive
+   number of rows; every cview present in a shard (started there or continued from above) is
+   at least as tall as the rows that remain for it; in every shard the widths of all cviews
+   present add up to the canvas width; at the end nothing is left pending. *)
+Definition cview_okb (cv : cview) : bool :=
+  (0 <? ccols cv) && (0 <? crows cv) &&
+  match cknd (ccanv cv) with
+  | LText rws mc =>
+      forallb (fun r : row => zlen r =? mc) rws &&
+      (0 <=? tl cv) && (tl cv + ccols cv <=? mc) && (0 <=? tt cv) && (tt cv + crows cv <=? zlen rws)
+  | _ => true
+  end.
+Definition body_cols (sb : list (body_entry cview)) : Z := fold_right (fun e acc => ccols (snd e) + acc) 0 sb.
+Fixpoint wf_fromb (w : Z) (ss : shards) (tail : list (tail_entry cview)) : bool :=
+  match ss with
+  | [] => match tail with [] => true | _ :: _ => false end
+  | (n, cvs) :: ss' =>
+      (0 <? n) && forallb cview_okb cvs &&
+      match sbody cvs tail with
+      | Err _ => false
+      | Ok sb =>
+          forallb (fun e : body_entry cview => fst e + n <=? crows (snd e)) sb &&
+          (body_cols sb =? w) && wf_fromb w ss' (stail n sb)
+      end
+  end.
+Definition wfb (ss : shards) : bool := (0 <? shards_cols ss) && wf_fromb (shards_cols ss) ss [].
+
 (* shards_trim_top(shards, top) *)
 Fixpoint trim_top_go (ss : shards) (tail : list (tail_entry cview)) (top : Z) : result shards :=
   match ss with
@@ -535,9 +565,12 @@ Definition comp_overlay (c : comp) (other : comp) (left top : Z) : result comp :
       end.
 
 (* CompositeCanvas.fill_attr_apply(mapping) *)
+(* "combined = mapping.copy(); combined.update([(k, mapping.get(v, v)) for k, v in cv[4].items()])"
+   (dict keys are unique, so the order of the updates is immaterial; the fold runs from the
+   right so that the entry [dget] would read wins even on a list that is not a dict) *)
 Definition combine_map (mapping : dict) (old : dict) : dict :=
-  fold_left (fun acc kv => dset (fst kv) (match dget mapping (snd kv) with Some v => v | None => snd kv end) acc)
-            old mapping.
+  fold_right (fun kv acc => dset (fst kv) (match dget mapping (snd kv) with Some v => v | None => snd kv end) acc)
+             mapping old.
 Definition cview_fill_attr (mapping : dict) (cv : cview) : cview :=
   match cam cv with
   | None => CV (tl cv) (tt cv) (ccols cv) (crows cv) (Some mapping) (ccanv cv)
@@ -838,7 +871,7 @@ Definition enc_value (v : value) : list Z :=
   ++ enc_coords (vcoords v)
   ++ [match v with VLeaf _ _ => 0 | VComp c => enc_bool (cfin c) end]
   ++ enc_content (value_content v)
-  ++ match v with VLeaf _ _ => [0] | VComp c => enc_shards (cshards c) end.
+  ++ match v with VLeaf _ _ => [0; 0] | VComp c => enc_shards (cshards c) ++ [enc_bool (wfb (cshards c))] end.
 Definition enc_ditem (d : ditem) : list Z := match d with DSkip n => [0; n] | DCell c => 1 :: enc_cell c end.
 Definition enc_delta (r : result (list (list ditem))) : list Z :=
   3 :: match r with
